@@ -253,7 +253,7 @@ theorem dev_empty_cstr (c : Cfg) (s : FStr) (rest : List Byte) (pos n : Nat) :
 theorem dev_backward_beyond (hc : CfgOK c) (s : FStr) (a : List Byte) (ch pos count : Nat) (neg : Bool)
     (hp : s.len ≤ pos) (hn : pos < npos c) :
     rfindCh c s ch pos = .ok none ∧ findLastOfCh c s ch pos neg = .ok none ∧
-    findLastOfImpl c s a pos count neg = .ok none ∧ (s.len < pos → findLastOfPN s a pos count neg = .ok none) := by
+    findLastOfImpl c s a pos count neg = .ok none ∧ findLastOfPN s a pos count neg = .ok none := by
   have hW := hc.hW
   unfold npos at hn
   have ha : addW c pos 1 = pos + 1 := by unfold addW; rw [if_pos (by omega)]
@@ -265,6 +265,6 @@ theorem dev_backward_beyond (hc : CfgOK c) (s : FStr) (a : List Byte) (ch pos co
     unfold findLastOfImpl npos
     simp only [if_neg hne, ha, hs]
     rw [if_pos (Or.inl (show pos ≥ s.len from hp))]
-  · intro h; unfold findLastOfPN; rw [if_pos (Or.inl h)]
+  · unfold findLastOfPN; rw [if_pos (Or.inl hp)]
 
 end CelmaVerif.FixedString
